@@ -549,8 +549,21 @@ func initReflectProg(i *Program) {
 		"Out":       newMethod(i.reflectPackage, rtypeType, "Out"),
 		"Size":      newMethod(i.reflectPackage, rtypeType, "Size"),
 		"String":    newMethod(i.reflectPackage, rtypeType, "String"),
+		"Name":      newMethod(i.reflectPackage, rtypeType, "Name"),
 	}
 	i.errorMethods = methodSet{
 		"Error": newMethod(i.reflectPackage, errorType, "Error"),
 	}
+}
+
+func ext۰reflect۰rtype۰Name(fr *frame, args []value) value {
+	// Signature: func (t reflect.rtype) string
+	t := args[0].(rtype).t
+	if n, ok := t.(*types.Named); ok {
+		return n.Obj().Name()
+	}
+	if b, ok := t.(*types.Basic); ok {
+		return b.Name()
+	}
+	return ""
 }
